@@ -140,4 +140,22 @@ theorem startswith_slash (f : Str) : startswith f ['/'] = decide (f.head? = some
       simp [this, h]
 
 
+/-! ### `replace` of one character by one character is a `map` -/
+
+theorem replaceAux_singleton [BEq α] [LawfulBEq α] (c d : α) (s : List α) :
+    replaceAux [c] [d] s 0 = s.map (fun x => if x == c then d else x) := by
+  induction s with
+  | nil => rfl
+  | cons x t ih =>
+    simp only [replaceAux, isPrefixOf_singleton, List.length_singleton, Nat.sub_self, ih, List.map_cons]
+    by_cases h : c = x
+    · subst h; simp
+    · have h1 : (c == x) = false := by simpa using h
+      have h2 : (x == c) = false := by simpa using fun h' => h h'.symm
+      simp [h1, h2]
+
+theorem replace_singleton [BEq α] [LawfulBEq α] (c d : α) (s : List α) :
+    replace s [c] [d] = s.map (fun x => if x == c then d else x) := by
+  simp [replace, replaceAux_singleton]
+
 end Wz.Pre
